@@ -3,7 +3,7 @@
     Only statements here; proofs live in Proofs/Ratchet.v.  [chain]/[km] are arbitrary functions
     (HKDF is not assumed to have any property); [sec chain s0 n] is the free term [chain^n s0]. *)
 From Coq Require Import List NArith.
-From PV Require Import Lib.NList Model.Ratchet Proofs.Ratchet.
+From PV Require Import Lib.NList Model.Ratchet Proofs.Ratchet Oracle.C34.
 Import ListNotations.
 Local Open Scope N_scope.
 
